@@ -222,8 +222,8 @@ class HDF5Dataset(Dataset):
         if not self.__contains__(name):
             raise ValueError("This dataframe does not contain the name to delete.")
         else:
-            del self._dataframes[name]
             del self._file[name]
+            del self._dataframes[name]
             return True
 
     def delete_dataframe(self, dataframe: DataFrame):
@@ -242,8 +242,8 @@ class HDF5Dataset(Dataset):
 
     def drop(self,
              name: str):
-        del self._dataframes[name]
         del self._file[name]
+        del self._dataframes[name]
 
     def keys(self):
         """Return all dataframe names in this dataset."""
